@@ -78,7 +78,7 @@ Definition relevant c := mainonly c || match c with Done => true | _ => false en
 
 Definition MainOK (cfg : config) (s : state) := exists m, nth_error (st s) 0 = Some m /\ t_worker m = false /\
   shutdown (sp s) = fphase (t_pc m) /\
-  (forall c, t_pc m = MJoin c -> 1 <= c /\ forall j, 1 <= j < c -> done_at (st s) j = true) /\
+  (forall c, t_pc m = MJoin c -> (1 <= c /\ c < c_K cfg) /\ forall j, 1 <= j < c -> done_at (st s) j = true) /\
   (fphase0 (t_pc m) = true -> forall j, 1 <= j < c_K cfg -> done_at (st s) j = true) /\
   (forall i, t_pc m = FJoin i -> i < cap (sp s) /\ forall j, j < i -> done_at (st s) (c_K cfg + j) = true) /\
   (t_pc m = Done -> forall j, j < cap (sp s) -> done_at (st s) (c_K cfg + j) = true) /\
@@ -154,16 +154,14 @@ Proof.
       destruct Hr' as [Hr'|[(Hp & HK1)|(Hp & HK1)]].
       * destruct (relevant_false_fphase _ Hr') as (G1 & G2 & G3 & G4 & G5 & G6 & G7).
         rewrite G1, G2, G3. repeat split; auto; try discriminate; intros; try congruence; try (exfalso; eapply G4; eassumption); try (exfalso; eapply G5; eassumption).
-      * rewrite Hp. cbn. repeat split; auto; try discriminate; intros; try discriminate.
-        -- inversion H0; lia.
-        -- inversion H0; subst; lia.
+      * rewrite Hp. cbn. repeat split; auto; try discriminate; intros; try discriminate; inversion H0; subst; lia.
       * rewrite Hp. cbn. repeat split; auto; try discriminate; intros; try discriminate. lia.
     + (* joined client c *)
       assert (Hne : t_pc m <> FLock) by congruence. rewrite (Hsd2 Hne), HA1, Hc. destruct (HB _ Hc) as [Hc1' Hcj].
-      destruct Hc' as [(Hp & HSc)|(Hp & HSc)]; rewrite Hp; cbn; repeat split; auto; try discriminate; intros; try discriminate.
-      * inversion H0; lia.
-      * inversion H0; subst. destruct (Nat.eq_dec j c) as [->|]; [apply Hdone, is_done_done_at; auto; lia|apply Hdone, Hcj; lia].
-      * destruct (Nat.eq_dec j c) as [->|]; [apply Hdone, is_done_done_at; auto; lia|apply Hdone, Hcj; lia].
+      destruct Hc' as [(Hp & HSc)|(Hp & HSc)]; rewrite Hp; cbn; repeat split; auto; try discriminate; intros; try discriminate;
+        try (inversion H0; subst; lia);
+        try (inversion H0; subst; destruct (Nat.eq_dec j c) as [->|]; [apply Hdone, is_done_done_at; auto; lia|apply Hdone, Hcj; lia]);
+        try (destruct (Nat.eq_dec j c) as [->|]; [apply Hdone, is_done_done_at; auto; lia|apply Hdone, Hcj; lia]).
     + rewrite (Hsd3 H1), H2. rewrite H1 in *. cbn in *. repeat split; auto; try discriminate; intros; try discriminate; try (apply Hdone, HC; auto).
     + assert (Hne : t_pc m <> FLock) by congruence. rewrite (Hsd2 Hne), HA1, H2. rewrite H1 in *. cbn in *.
       repeat split; auto; try discriminate; intros; try discriminate; try (apply Hdone, HC; auto).
@@ -188,6 +186,7 @@ Proof.
     destruct (woken_relevant _ _ Hwk) as [Hr1 Hr2].
     destruct (relevant (t_pc m)) eqn:Er.
     + rewrite (Hr1 eq_refl). repeat split; intros.
+      * apply (HB _ H0).
       * apply (HB _ H0).
       * apply Hdone. apply (HB _ H0). auto.
       * apply Hdone, HC; auto.
